@@ -78,8 +78,7 @@ class C01(Prop):
                      'nextra': rng.choice([0, 0, 3, 20]), 'chunkext': rng.random() < 0.3, 'trailers': rng.random() < 0.2,
                      'cc': rng.choice(['', 'max-age=100', 'no-store', 'private']), 'origin10': rng.random() < 0.1,
                      'owin': rng.choice([4096, 65536, 65536, 1 << 20])}
-                if t['seg'] == 'byte' and t['size'] > 3000:
-                    t['seg'] = 'rand'
+                hc.bound_transfer(t, plan['knobs'])
                 # an HTTP/1.0 client can only detect truncation of a length-delimited message (the property speaks of HTTP/1.1
                 # framing), so faults for those clients are restricted to Content-Length framed origin responses
                 if faulty and rng.random() < 0.5 and t['status'] != 204 and t['method'] == 'GET' and (not c['http10'] or t['framing'] == 'cl'):
